@@ -140,6 +140,7 @@ Inductive command :=
 | CFetchFlagsBody (ps : list nat)  (* (FLAGS BODY[]) : as above, and every message reports its (new) flags *)
 | CProbe                           (* UID FETCH 1:* (FLAGS) *)
 | CSearch                          (* SEARCH ALL *)
+| CSearchBad                       (* SEARCH CHARSET X-UNKNOWN ALL : refused with NO; only the trailing flush runs *)
 | CNoop
 | CCheck
 | CIdle
@@ -335,7 +336,8 @@ Definition do_cmd (w : world) (i : nat) (c : command) : world * list resp * outc
               match msgs_at sn ps with
               | None => (w, [], ONo)
               | Some xs =>
-                  let ms := map sm_id xs in
+                  (* only the messages that are still in the source mailbox are moved *)
+                  let ms := filter (fun m => row_has m (mbox_of w sel)) (map sm_id xs) in
                   if sel =? dst then
                     let '(w1, ups1) := remove_rows w dst ms in
                     let '(w2, ups2) := action_add w1 dst ms None in
@@ -343,10 +345,9 @@ Definition do_cmd (w : world) (i : nat) (c : command) : world * list resp * outc
                   else
                     let have := filter (fun m => row_has m (mbox_of w dst)) ms in
                     let '(w1, ups1) := remove_rows w dst have in
-                    let tomove := filter (fun m => row_has m (mbox_of w1 sel)) ms in
-                    let '(w2, _) := remove_rows w1 sel tomove in
-                    let '(w3, items) := add_rows w2 dst tomove in
-                    ret (finish w3 i (ups1 ++ [UExists dst items (Some i)] ++ map (UExpunge sel) tomove) false (sel_permits "Move"))
+                    let '(w2, _) := remove_rows w1 sel ms in
+                    let '(w3, items) := add_rows w2 dst ms in
+                    ret (finish w3 i (ups1 ++ [UExists dst items (Some i)] ++ map (UExpunge sel) ms) false (sel_permits "Move"))
               end
           | CFetchBody ps | CFetchFlagsBody ps =>
               match msgs_at sn ps with
@@ -377,6 +378,11 @@ Definition do_cmd (w : world) (i : nat) (c : command) : world * list resp * outc
               | None => fail
               end
           | CSearch => reti (finish_issued w i [] false (sel_permits "Search"))
+          | CSearchBad =>
+              match finish w i [] false (match trailing_flush with Some b => [b] | None => [] end) with
+              | Some (w', out) => (w', out, ONo)
+              | None => fail
+              end
           | CNoop => ret (finish w i [] false (own_permits "handleNoop"))
           | CCheck => ret (finish w i [] false (sel_permits "Check"))
           | CIdle =>
